@@ -162,3 +162,55 @@ func runStrictConcurrent(h *Harness, j int) {
 	h.R.Sample = map[string]any{"scenario": "strict-concurrent", "origin": state, "fetch": fetch, "backend": backend, "handshakes": nh}
 	h.Cleanup(n)
 }
+
+// Lenient mode and an entry that was never loaded (C10): the first handshake for a distribution point meets an
+// unreachable origin, so the entry exists with an empty store. From then on every lookup in that store would fail (the
+// store-method seam makes GetCertRevocationStatus return an I/O error). Nothing of that CRL is in force, so nothing of it
+// is consulted: a lenient handshake is not denied, a strict one is denied for the gate's reason.
+func lenientUnloadedRuns(tier string) int { return 4 }
+
+func runLenientUnloaded(h *Harness, j int) {
+	sc := h.R.Scenario
+	backend := []string{"memory", "disk"}[j%2]
+	fetch := []string{"", "fetch_background"}[(j/2)%2]
+	sc["scenario"], sc["backend"], sc["fetch"] = "lenient-unloaded-entry", backend, fetch
+	h.R.NonTrivial, h.R.Config = true, "faulty"
+	w := NewWorld(h, WorldOpts{})
+	loc := w.NewLocation(LocOpts{Name: "L1", URL: "http://crl.sim/a.crl", Issuer: w.A, NVers: 1, Extra: 2, Width: 8})
+	other := w.NewLocation(LocOpts{Name: "L2", URL: "http://crl2.sim/b.crl", Issuer: w.A, NVers: 1, Extra: 2, Width: 9, Base: 1})
+	cfg := NodeCfg{Mode: "crl_only", Storage: backend, UpdateInterval: "10m", SigMode: "verify", FetchMode: fetch, CDPStrict: false}
+	n := h.NewNode("n1", cfg)
+	if err := h.Provision(n); err != nil {
+		h.Violation("C10.setup", "provision-failed", "%v", err)
+		return
+	}
+	repo := n.Repo()
+	ff := &FaultyFactory{Inner: repo.Factory}
+	h.Call(n, "wrap-factory", func() { repo.Factory = ff })
+	// a healthy second location, loaded: lookups in ITS store keep working
+	if x := h.Handshake(n, "load-other", w.ChainFor(other.Cert(other.Never[0]), w.A)); x.Err != nil {
+		h.Violation("C10.lenient-deny", "lenient-deny:setup", "lenient: fault-free first use denied: %v", x.Err)
+		return
+	}
+	h.Settle(5 * time.Second)
+	loc.State = oDown
+	h.Handshake(n, "first-while-down", w.ChainFor(loc.Cert(loc.Never[0]), w.A))
+	h.Settle(5 * time.Second)
+	// lookups fail in every store that holds no CRL: the never-loaded entry's
+	ff.failEmptyLookups = true
+	for _, class := range []string{"never", "common"} {
+		s := loc.Never[0]
+		if class == "common" {
+			s = loc.Common
+		}
+		hs := h.Handshake(n, "lenient-"+class, w.ChainFor(loc.Cert(s), w.A))
+		h.R.Checks++
+		if hs.Err != nil {
+			h.Violation("C10.lenient-deny", "lenient-deny:unloaded-entry-consulted", "lenient: a certificate naming a distribution point whose CRL was never loaded (origin unreachable) was denied: %v - the store of an entry that holds nothing in force was consulted and its failure held against the certificate", hs.Err)
+			break
+		}
+	}
+	ff.failEmptyLookups = false
+	h.R.Sample = map[string]any{"scenario": "lenient-unloaded-entry", "backend": backend, "fetch": fetch, "failed_lookups": ff.Fired}
+	h.Cleanup(n)
+}
